@@ -118,6 +118,10 @@ def compare(exp, got):
 MAX_CRASHES = 4
 
 
+class SetupDied(Exception):
+    """the library died while compiling the two-line model / making its mjData"""
+
+
 def run_behaviours(exe, scripts, risky, timeout=900):
     """run many behaviour scripts in one harness process; a crash loses only the behaviour that crashed.
     After MAX_CRASHES crashes the remaining `risky` behaviours (those with a near-SIZE_MAX request, the only class
@@ -134,8 +138,10 @@ def run_behaviours(exe, scripts, risky, timeout=900):
             lines += scripts[b]
         r = drv.run_script(exe, lines, timeout=timeout)
         out = r.lines
+        if (not out or out[0] != "ok") and r.crashed:
+            raise SetupDied(r.crash_text())
         if not out or out[0] != "ok":
-            raise Machinery("harness could not build the model: %r %s" % (out[:1], r.crash_text() if r.crashed else ""))
+            raise Machinery("harness could not build the model: %r" % (out[:1],))
         nxt = []
         culprit = res_first_incomplete(out, offs, scripts, todo) if r.crashed else None
         for k, b in enumerate(todo):
@@ -193,7 +199,14 @@ def replay_variant(ctx, variant, exe, behs, tag):
         scripts.append(l)
         exps.append(e)
     risky = [any(size_class(st["ev"]) == "huge" for st in b[1:]) for b in behs]
-    results = run_behaviours(exe, scripts, risky)
+    try:
+        results = run_behaviours(exe, scripts, risky)
+    except SetupDied as e:
+        ctx.case({"variant": variant, "setup": "died"})
+        ctx.violation("%s:setup:died" % variant, "%s build: the library died while compiling a one-body model (mj_compile runs "
+                      "the engine): %s" % (variant, str(e)[:300]), {"variant": variant, "script": [], "first_bad_line": 0,
+                                                                  "kind": "crash", "want": "-", "got": "-", "expect": []})
+        return scripts, exps, [None] * len(scripts)
     nviol = 0
     for b, rr in enumerate(results):
         if rr is None:
@@ -220,8 +233,10 @@ def replay_variant(ctx, variant, exe, behs, tag):
 def graph_behaviours(ctx, job, name):
     res, nodes, edges, inits = job
     ctx.tlc_ok(res, name)
-    edges = sorted(edges)                  # TLC's dump order depends on worker scheduling
-    paths = tlc.edge_cover_paths(nodes, edges, sorted(inits))
+    # TLC's node ids (fingerprints) and dump order change from run to run: order everything by state content
+    key = {i: json.dumps(tlc.to_py(st), sort_keys=True) for i, st in nodes.items()}
+    edges = sorted(edges, key=lambda e: (key[e[0]], key[e[1]], e[2]))
+    paths = tlc.edge_cover_paths(nodes, edges, sorted(inits, key=lambda i: key[i]))
     return [[nodes[i] for i in p] for p in paths], len(edges)
 
 
@@ -429,7 +444,7 @@ def run(ctx):
     with cf.ThreadPoolExecutor(10) as ex:
         J["mc"] = ex.submit(tlc.run, SPEC, cfgp(mc), coverage=True, timeout=2400, workers=8)
         for site in controls:
-            J[site] = ex.submit(tlc.run, SPEC, cfgp("StackArena_Code%s.cfg" % site), timeout=900, workers=2)
+            J[site] = ex.submit(tlc.run, SPEC, cfgp("StackArena_Code%s.cfg" % site), timeout=900, workers=1)
         J["graph"] = ex.submit(tlc.dump_graph, SPEC, cfgp("StackArena_GraphQ.cfg" if ctx.quick else "StackArena_Graph.cfg"), 4, 1800)
         if not ctx.quick:
             J["graph3"] = ex.submit(tlc.dump_graph, SPEC, cfgp("StackArena_Graph3.cfg"), 4, 1800)
@@ -438,7 +453,7 @@ def run(ctx):
         J = {k: v.result() for k, v in J.items()}
 
     # ---- 1. design: exhaustive run of the contract; the code's literal arithmetic as negative control
-    ctx.tlc_ok(J["mc"], mc[:-4], need_actions=["Alloc", "Mark", "Free", "ArenaAlloc", "LockOn"] + (["TReserve", "TFinish"] if ctx.quick else []))
+    ctx.tlc_ok(J["mc"], mc[:-4], need_actions=["Alloc", "Mark", "Free", "ArenaAlloc", "LockOn", "TReserve", "TFinish"])
     for site in controls:
         r = J[site]
         ctx.tlc_ok(r, "StackArena_Code" + site, allow_violation=True)
@@ -455,8 +470,12 @@ def run(ctx):
     allb = [b for b in behs + sims if b[0]["rz"] == 0]
     scripts, exps, results = replay_variant(ctx, "plain", exe, allb, "plain")
     # negative controls on the comparer: a perturbed library answer must be flagged
-    k = next(i for i, b in enumerate(allb) if results[i] is not None and any(e is not None and e[0] == "cmp" and e[4] is not None and e[1]["op"] == "alloc" and e[2] == "ok"
-                                                  for e in exps[i]) and compare(exps[i], results[i][0]) is None)
+    k = next((i for i, b in enumerate(allb) if results[i] is not None and any(e is not None and e[0] == "cmp" and e[4] is not None and e[1]["op"] == "alloc" and e[2] == "ok"
+                                                  for e in exps[i]) and compare(exps[i], results[i][0]) is None), None)
+    if k is None:          # nothing replayed cleanly (violations are already recorded): use a synthetic clean answer
+        k = 0
+        scripts, exps = [["a.narena 0 100", "data 0 0", "a.alloc 0 8 8", "a.reset 0"]], [[None, None, ("cmp", {"op": "alloc", "size": 8, "al": 8}, "ok", 88, (12, 0, -1)), ("skip", {"op": "reset"})]]
+        results = [(["ok", "ok", "ok 88 12 0 -1", "ok 0 0 0 -1"], None)]
     j = next(i for i, e in enumerate(exps[k]) if e is not None and e[0] == "cmp" and e[1]["op"] == "alloc" and e[2] == "ok")
     bad = list(results[k][0])
     f = bad[j].split()
